@@ -100,11 +100,12 @@ class BV:
 
 
 class Ptr:
-    __slots__ = ('obj', 'off')
+    __slots__ = ('obj', 'off', 'parts')
 
-    def __init__(self, obj, off):
+    def __init__(self, obj, off, parts=None):
         self.obj = obj
         self.off = off if isinstance(off, BV) else BV.const(off & ((1 << 64) - 1), 64)
+        self.parts = parts        # for hooked (opaque) objects: (const offset, [(index BV, stride)])
 
     def coff(self):
         c = self.off.concrete()
@@ -242,9 +243,10 @@ class Outcome:
 class Interp:
     def __init__(self, P, vars_=None, summaries=None, budget=4096, max_steps=400000):
         self.P = P; self.V = vars_ or Vars()
-        self.summaries = summaries or {}     # name or 'dep:x' -> callable(interp, state, args, inst) -> value
+        self.summaries = summaries if summaries is not None else {}     # name or 'dep:x' -> callable(interp, state, args, inst) -> value
         self.budget = budget; self.steps = 0; self.max_steps = max_steps
         self.accesses = []       # (function, loc, obj, offset, size, kind) concrete accesses bounds-checked
+        self.nofork = 0          # mask of input bits that must not be partitioned on (e.g. an unknown string length)
         self.nforks = 0
         self.globals_loaded = set()
 
@@ -301,7 +303,7 @@ class Interp:
         if off is None:
             red = [st.cons.reduce(b) for b in ptr.off.bits]
             for b in red:
-                if is_form(b): raise Fork(b)
+                if is_form(b) and not (b[0] & self.nofork): raise Fork(b)
             ptr = Ptr(ptr.obj, BV(red))
             off = ptr.coff()
             if off is None:
@@ -743,6 +745,11 @@ class Interp:
                 if isinstance(base, BV) and base.concrete() == 0:
                     raise Unmodelled('pointer arithmetic on NULL at %s' % i.loc)
                 raise Unmodelled('GEP on non-pointer at %s' % i.loc)
+            if base.obj in st.mem.hooks:
+                c0, steps = base.parts if base.parts else (base.coff() or 0, [])
+                steps = list(steps) + [(self.val(st, frame, s['idx']), s['stride']) for s in i.d['var_steps']]
+                regs[i.id] = Ptr(base.obj, BV([T(0)] * 64) if steps else c0 + i.d['const_off'], (c0 + i.d['const_off'], steps))
+                return None
             off = self.add(base.off.bits, BV.const(i.d['const_off'] & ((1 << 64) - 1), 64).bits)
             for s in i.d['var_steps']:
                 idx = self.val(st, frame, s['idx'])
@@ -846,7 +853,12 @@ class Interp:
             return None
         if name.startswith('llvm.memcpy') or name.startswith('llvm.memmove') or name in ('memcpy', 'memmove'):
             d, s, n = args[0], args[1], args[2].concrete()
-            if n is None: raise Unmodelled('memcpy with symbolic size at %s' % i.loc)
+            if n is None:
+                st.trace.append(('memcpy-symbolic-size', repr(d), repr(s), self.V.show_bv(args[2])[:3], i.loc))
+                if isinstance(d, Ptr) and d.obj in st.mem.objs:
+                    st.mem.objs[d.obj] = [[T(0)] * 8 for _ in st.mem.objs[d.obj]]
+                if i.d['bits']: regs[i.id] = d
+                return None
             so, soff = self._cells(st, s, n, i, 'load')
             do, doff = self._cells(st, d, n, i, 'store')
             if so is None or do is None: raise Unmodelled('memcpy with symbolic offset at %s' % i.loc)
